@@ -14,7 +14,7 @@ import sys
 
 sys.path.insert(0, os.path.dirname(os.path.abspath(__file__)))
 import extract
-from mirlib import Facts
+from mirlib import Facts, norm_ty
 
 OUT = os.path.join(os.path.dirname(os.path.abspath(__file__)), "param_table.json")
 
@@ -35,7 +35,7 @@ def main():
                     names[p[0]] = nm
             if not [v for v in names.values() if v != "self"] or "::tests::" in b.defpath or "::test::" in b.defpath or b.defpath.endswith("::tests"):
                 continue
-            ent[b.defpath] = [[names.get(i), b.locals[i]] for i in range(1, argc + 1)]
+            ent[b.defpath] = [[names.get(i), norm_ty(b.locals[i])] for i in range(1, argc + 1)]
             n += 1
         if ent:
             table[cn] = ent
